@@ -409,3 +409,84 @@ template<int SHAPE> static void truncate_body() {
 extern "C" void harness_c12_truncate() {
   DISPATCH_BEGIN CUT8(truncate_body, 0) CUT8(truncate_body, 8) CUT8(truncate_body, 16) CUT8(truncate_body, 24) DISPATCH_END
 }
+
+// ---- idf_output_vector / idf_input_vector over the element types that contain strings; SHAPE = number of elements ----
+template<int N> static void vec_parameter_body() {
+  typedef InterrogateFunctionWrapper::Parameter P;
+  as_file_version(3);
+  std::vector<P> *a = new std::vector<P>, *b = new std::vector<P>;
+  a->reserve(N);
+  for (int i = 0; i < N; i++) {
+    a->emplace_back();
+    sym_str(a->back()._name); a->back()._parameter_flags = nondet_int(); a->back()._type = nondet_int();
+  }
+  int follow = nondet_int();
+  std::ostream *out = vs_ostream_new();
+  idf_output_vector(*out, *a);
+  *out << follow << ' ';
+  ASSERT(vs_format_error(out) == 0, "C12 every integer in the file is delimited from its neighbours");
+  std::istream *in = vs_istream_of(out);
+  idf_input_vector(*in, *b);
+  ASSERT(!in->fail(), "C12 reading back a written vector does not fail");
+  ASSERT(b->size() == (size_t)N, "C12 vector<Parameter> read back has the written length");
+  for (int i = 0; i < N && i < (int)b->size(); i++) {
+    ASSERT((*b)[i]._name == (*a)[i]._name, "C12 Parameter._name round-trips");
+    ASSERT((*b)[i]._parameter_flags == (*a)[i]._parameter_flags, "C12 Parameter._parameter_flags round-trips");
+    ASSERT((*b)[i]._type == (*a)[i]._type, "C12 Parameter._type round-trips");
+  }
+  int f2 = 0;
+  *in >> f2;
+  ASSERT(!in->fail() && f2 == follow, "C12 the value following a vector is read back intact");
+  std::ostream *out2 = vs_ostream_new();
+  idf_output_vector(*out2, *b);
+  *out2 << f2 << ' ';
+  ASSERT(vs_same_output(out, out2), "C12 re-serialising the read-back vector gives the same file content");
+  WITNESS();
+}
+extern "C" void harness_c12_vec_parameter() {
+  DISPATCH_BEGIN SHAPE_CASE(vec_parameter_body, 0) SHAPE_CASE(vec_parameter_body, 1) SHAPE_CASE(vec_parameter_body, 2) DISPATCH_END
+}
+
+template<int N> static void vec_enumvalue_body() {
+  typedef InterrogateType::EnumValue E;
+  as_file_version(3);
+  std::vector<E> *a = new std::vector<E>, *b = new std::vector<E>;
+  a->reserve(N);
+  for (int i = 0; i < N; i++) {
+    a->emplace_back();
+    sym_str(a->back()._name); sym_str(a->back()._scoped_name); sym_str(a->back()._comment); a->back()._value = nondet_int();
+  }
+  int follow = nondet_int();
+  std::ostream *out = vs_ostream_new();
+  idf_output_vector(*out, *a);
+  *out << follow << ' ';
+  ASSERT(vs_format_error(out) == 0, "C12 every integer in the file is delimited from its neighbours");
+  std::istream *in = vs_istream_of(out);
+  idf_input_vector(*in, *b);
+  ASSERT(!in->fail(), "C12 reading back a written vector does not fail");
+  ASSERT(b->size() == (size_t)N, "C12 vector<EnumValue> read back has the written length");
+  for (int i = 0; i < N && i < (int)b->size(); i++) {
+    ASSERT((*b)[i]._name == (*a)[i]._name, "C12 EnumValue._name round-trips");
+    ASSERT((*b)[i]._scoped_name == (*a)[i]._scoped_name, "C12 EnumValue._scoped_name round-trips");
+    ASSERT((*b)[i]._comment == (*a)[i]._comment, "C12 EnumValue._comment round-trips");
+    ASSERT((*b)[i]._value == (*a)[i]._value, "C12 EnumValue._value round-trips");
+  }
+  int f2 = 0;
+  *in >> f2;
+  ASSERT(!in->fail() && f2 == follow, "C12 the value following a vector is read back intact");
+  std::ostream *out2 = vs_ostream_new();
+  idf_output_vector(*out2, *b);
+  *out2 << f2 << ' ';
+  ASSERT(vs_same_output(out, out2), "C12 re-serialising the read-back vector gives the same file content");
+  WITNESS();
+}
+extern "C" void harness_c12_vec_enumvalue() {
+#ifndef VEC_MAX
+#define VEC_MAX 2
+#endif
+  DISPATCH_BEGIN SHAPE_CASE(vec_enumvalue_body, 0) SHAPE_CASE(vec_enumvalue_body, 1)
+#if VEC_MAX >= 2
+  SHAPE_CASE(vec_enumvalue_body, 2)
+#endif
+  DISPATCH_END
+}
